@@ -20,16 +20,19 @@ import (
 // "last" and that occurs as the right operand of `E - L` (writer) or as an operand of `E + L`
 // (reader), or is passed to a module function whose parameter is named "last". One obligation per
 // state per function:
-//   writer (E - L):    every assignment to L in the function, other than a reset to the constant 0,
-//                      is `L = E` with the same E (modulo conversions), or `L += D` where D holds
-//                      the difference just computed (D := E - L, or D := f(…, L, …));
-//   reader (X = E + L, X := E + L or f(E, L, …)): L is assigned X — or, written out, the same sum —
-//                      later in the same block (tuple assignments are read position by position);
-//   both:              L is assigned at all (a state that is never updated stays 0).
+//
+//	writer (E - L):    every assignment to L in the function, other than a reset to the constant 0,
+//	                   is `L = E` with the same E (modulo conversions), or `L += D` where D holds
+//	                   the difference just computed (D := E - L, or D := f(…, L, …));
+//	reader (X = E + L, X := E + L or f(E, L, …)): L is assigned X — or, written out, the same sum —
+//	                   later in the same block (tuple assignments are read position by position);
+//	both:              L is assigned at all (a state that is never updated stays 0).
+//
 // Anything else assigned to L is a violation that names the statement.
-//   restart (writer states that are fields, i.e. outlive one call): in every block of the package
-//                      that restarts the sequence the differences are appended to (S = S[0:0]), L is
-//                      reset to 0 as well — the reader starts every sequence from 0.
+//
+//	restart (writer states that are fields, i.e. outlive one call): in every block of the package
+//	                   that restarts the sequence the differences are appended to (S = S[0:0]), L is
+//	                   reset to 0 as well — the reader starts every sequence from 0.
 func init() {
 	register(&Rule{
 		Name:  "PBF-DELTA",
@@ -373,10 +376,11 @@ func runDeltaStates(c *Ctx, rel string, prefixes []string) []Obligation {
 // a constant K and the results of a module function F to. In F, the map M that is consulted and
 // the table T whose length is handed out as the next index are read from the code
 // (`if i, ok = M[s]; !ok { i = len(T); T = append(T, …); M[s] = i }`). Obligations:
-//   #map     every store into M anywhere in the package stores the value taken from len(T) in F — a
-//            store of a constant (in particular K) is a violation;
-//   #table   every re-slice of T keeps more than K entries (T = T[0:n] with constant n > K), and T is
-//            created with a length > K.
+//
+//	#map     every store into M anywhere in the package stores the value taken from len(T) in F — a
+//	         store of a constant (in particular K) is a violation;
+//	#table   every re-slice of T keeps more than K entries (T = T[0:n] with constant n > K), and T is
+//	         created with a length > K.
 func init() {
 	register(&Rule{
 		Name:  "PBF-SENTINEL",
@@ -501,6 +505,25 @@ func runPBFSentinel(c *Ctx) []Obligation {
 						return true
 					}
 					for i, l := range as.Lhs {
+						if nodeText(c.Fset, l) == mText {
+							// M = map[K]V{k: v, …}: every initial value is a stored index too
+							if lit, ok := ast.Unparen(as.Rhs[i]).(*ast.CompositeLit); ok {
+								for _, el := range lit.Elts {
+									if kv, ok := el.(*ast.KeyValueExpr); ok {
+										where := c.Position(kv.Pos())
+										if k, isConst := constInt(kv.Value); isConst {
+											msg := fmt.Sprintf("%s is created with the entry %s at %s, a constant index", mText, nodeText(c.Fset, kv), where)
+											if k == st.k {
+												msg += fmt.Sprintf(", and it is the terminator of %s: a string with this index ends the element's list early and shifts everything after it", q)
+											}
+											mbad = append(mbad, msg)
+										} else {
+											mbad = append(mbad, fmt.Sprintf("%s is created with the entry %s at %s, which is not an index taken from len(%s)", mText, nodeText(c.Fset, kv), where, tText))
+										}
+									}
+								}
+							}
+						}
 						if ix, ok := ast.Unparen(l).(*ast.IndexExpr); ok && nodeText(c.Fset, ix.X) == mText {
 							where := c.Position(as.Pos())
 							if k, isConst := constInt(as.Rhs[i]); isConst {
@@ -577,7 +600,6 @@ func runPBFSentinel(c *Ctx) []Obligation {
 	}
 	return out
 }
-
 
 // TILE-CURSOR (C33) and POSTING-DELTA (C08) apply PBF-DELTA's obligations to the two other places
 // where b6 writes a sequence as differences from the previous element: the vector-tile geometry
